@@ -10,15 +10,39 @@ def norm_key(k):
     return _re.sub(r"::\{closure#\d+\}", "", k)
 
 
+_BOUND = {"crate": None, "table": None}
+
+
+def bind(crate):
+    """the tree being analysed: lets a reviewed entry follow its function through a rename (plsa/sigkeys.py)"""
+    from . import sigkeys
+    _BOUND["crate"] = crate
+    if _BOUND["table"] is None:
+        _BOUND["table"] = sigkeys.load()
+
+
 class _Reviewed(dict):
     def __init__(self, d):
         super().__init__({norm_key(k): v for k, v in d.items()})
 
+    def _resolve(self, k):
+        nk = norm_key(k)
+        if dict.__contains__(self, nk):
+            return nk
+        if _BOUND["crate"] is not None:
+            from . import sigkeys
+            return sigkeys.alias_match(_BOUND["crate"], nk, dict.keys(self), _BOUND["table"])
+        return None
+
     def __contains__(self, k):
-        return dict.__contains__(self, norm_key(k))
+        return self._resolve(k) is not None
 
     def __getitem__(self, k):
-        return dict.__getitem__(self, norm_key(k))
+        e = self._resolve(k)
+        if e is None:
+            raise KeyError(k)
+        v = dict.__getitem__(self, e)
+        return v if e == norm_key(k) else v + " [the function was renamed; matched by signature]"
 
 
 _RAW = {
@@ -55,12 +79,33 @@ _RAW = {
         "index the char_indices() vector whose byte offsets increase strictly; end_byte is the offset at end_idx > start_idx or line.len()",
     "R7e|providers::references::<impl providers::Backend>::handle_references::{closure#0}|len() - `skipped_count`":
         "`references.len() - skipped_count`: skipped_count is incremented at most once per element of the loop over `references`",
-    "R7e|fixtures::analyzer::<impl fixtures::FixtureDatabase>::get_char_position_from_offset|get_line_from_offset() - 1":
+    "R7e|fixtures::analyzer::<impl fixtures::FixtureDatabase>::get_char_position_from_offset|`line` - 1":
         "`line_index[line - 1]`: get_line_from_offset returns binary_search's Ok(i) + 1 or Err(i); the line index always starts with "
         "offset 0, so Err(0) would need offset < 0: line >= 1",
-    "R7e|fixtures::analyzer::<impl fixtures::FixtureDatabase>::visit_stmt|get_char_position_from_offset() - 1":
+    "R7e|fixtures::analyzer::<impl fixtures::FixtureDatabase>::visit_stmt|`end_char` - 1":
         "`end_char - 1` (three sites, same shape): end_char is the column just after the closing quote of a string literal "
         "(range.end() of an Expr::Constant(Str)), which is at least 1 on whatever line the literal ends",
+    "R7f|fixtures::resolver::<impl fixtures::FixtureDatabase>::compute_fixture_cycles|`path`[`cycle_start_idx`..]":
+        "`path[cycle_start_idx..]` (two sites, same shape): cycle_start_idx is `path.iter().position(..)` (< path.len()) or 0; a "
+        "RangeFrom needs start <= len",
+    "R7f|fixtures::resolver::<impl fixtures::FixtureDatabase>::compute_fixture_cycles|`cycle_path`[..(len() - 1)]":
+        "`cycle_path[..cycle_path.len() - 1]` (two sites): a RangeTo with end <= len; len() >= 1 after the push (R7e proves the subtraction)",
+    "R7f|fixtures::resolver::<impl fixtures::FixtureDatabase>::get_completion_context_from_text|`lines`[`i`]":
+        "`lines[i]` in the backward scan: i starts at cursor_idx = target_line - 1 and the function returned None when target_line == 0 "
+        "or target_line > lines.len(); i only decreases",
+    "R7f|fixtures::resolver::<impl fixtures::FixtureDatabase>::get_completion_context_from_text|`lines`[`def_line_idx`]":
+        "def_line_idx is a value `i` of the backward scan (see `lines`[`i`])",
+    "R7f|fixtures::resolver::<impl fixtures::FixtureDatabase>::get_completion_context_from_text|`lines`[`def_line_idx`..=`cursor_idx`]":
+        "`lines[def_line_idx..=cursor_idx]` (two sites): def_line_idx <= cursor_idx because the scan only decrements from cursor_idx, "
+        "and cursor_idx < lines.len() by the early return on target_line",
+    "R7f|fixtures::string_utils::extract_word_at_position|`char_indices`[(`start_idx` - 1)]":
+        "inside `while start_idx > 0`; start_idx <= character < char_indices.len() (early return otherwise)",
+    "R7f|fixtures::string_utils::extract_word_at_position|`char_indices`[`start_idx`]":
+        "start_idx only decreases from `character`, which is < char_indices.len() by the early return",
+    "R7f|fixtures::string_utils::format_docstring|`lines`[(`end` - 1)]":
+        "`end` starts at lines.len() and only decreases; the loop condition `end > start` is evaluated first (short-circuit &&)",
+    "R7f|fixtures::string_utils::format_docstring|`lines`[`start`..`end`]":
+        "reached only when `start < end` (early return on start >= end); end <= lines.len()",
     "R7c|fixtures::scanner::<impl fixtures::FixtureDatabase>::load_plugin_from_entry_point|expect on parent":
         "path.parent() of a path whose file_name() was just matched against Some(\"__init__.py\"): a path with a file name has a parent",
     "R7c|handle_fixtures_unused|unwrap on to_string_pretty":
